@@ -30,6 +30,133 @@
 #include <omp.h>
 #endif
 
+/* ------------------------------------------------------- heap accounting
+ * Built only with -DHEAP_ACCOUNT (the un-sanitised `plain` variant): malloc/calloc/realloc/free are interposed and
+ * the number of live blocks / bytes is kept, so that a `heapmark` step can report what is still allocated. */
+#ifdef HEAP_ACCOUNT
+#include <dlfcn.h>
+#include <malloc.h>
+static atomic_long live_blocks, live_bytes;
+static void *(*real_malloc)(size_t);
+static void *(*real_calloc)(size_t, size_t);
+static void *(*real_realloc)(void *, size_t);
+static void (*real_free)(void *);
+static char boot_buf[65536];
+static size_t boot_used;
+static int resolving;
+static void resolve(void)
+{
+        if (real_malloc || resolving) {
+                return;
+        }
+        resolving = 1;
+        real_malloc = dlsym(RTLD_NEXT, "malloc");
+        real_calloc = dlsym(RTLD_NEXT, "calloc");
+        real_realloc = dlsym(RTLD_NEXT, "realloc");
+        real_free = dlsym(RTLD_NEXT, "free");
+        resolving = 0;
+}
+static void *boot_alloc(size_t n)
+{
+        void *p = boot_buf + boot_used;
+        boot_used += (n + 15) & ~(size_t)15;
+        return boot_used <= sizeof(boot_buf) ? p : NULL;
+}
+static int is_boot(void *p)
+{
+        return (char *)p >= boot_buf && (char *)p < boot_buf + sizeof(boot_buf);
+}
+/* every block handed out here carries a 16-byte header (magic, size); free() only accounts for blocks that carry it,
+   so memory obtained inside libc (getline, fopen) or through memalign is passed through untouched */
+#define HA_MAGIC 0x6b616c69676e5f76ULL
+struct ha_hdr {
+        unsigned long long magic;
+        unsigned long long size;
+};
+static void *ha_wrap(void *raw, size_t n)
+{
+        struct ha_hdr *h = raw;
+        if (!raw) {
+                return NULL;
+        }
+        h->magic = HA_MAGIC;
+        h->size = n;
+        atomic_fetch_add(&live_blocks, 1);
+        atomic_fetch_add(&live_bytes, (long)n);
+        return (char *)raw + sizeof(struct ha_hdr);
+}
+void *malloc(size_t n)
+{
+        resolve();
+        if (!real_malloc) {
+                return boot_alloc(n);
+        }
+        return ha_wrap(real_malloc(n + sizeof(struct ha_hdr)), n);
+}
+void *calloc(size_t a, size_t b)
+{
+        resolve();
+        if (!real_calloc) {
+                void *p = boot_alloc(a * b);
+                if (p) {
+                        memset(p, 0, a * b);
+                }
+                return p;
+        }
+        void *raw = real_calloc(1, a * b + sizeof(struct ha_hdr));
+        return ha_wrap(raw, a * b);
+}
+static struct ha_hdr *ha_ours(void *p)
+{
+        struct ha_hdr *h = (struct ha_hdr *)((char *)p - sizeof(struct ha_hdr));
+        return h->magic == HA_MAGIC ? h : NULL;
+}
+void *realloc(void *q, size_t n)
+{
+        resolve();
+        if (!q) {
+                return malloc(n);
+        }
+        if (is_boot(q)) {
+                void *p = malloc(n);
+                if (p) {
+                        memcpy(p, q, n < 4096 ? n : 4096);
+                }
+                return p;
+        }
+        struct ha_hdr *h = ha_ours(q);
+        if (!h) {
+                return real_realloc(q, n);
+        }
+        long old = (long)h->size;
+        h->magic = 0;
+        void *raw = real_realloc(h, n + sizeof(struct ha_hdr));
+        if (!raw) {
+                h->magic = HA_MAGIC;
+                return NULL;
+        }
+        atomic_fetch_add(&live_blocks, -1);
+        atomic_fetch_add(&live_bytes, -old);
+        return ha_wrap(raw, n);
+}
+void free(void *p)
+{
+        if (!p || is_boot(p)) {
+                return;
+        }
+        resolve();
+        struct ha_hdr *h = ha_ours(p);
+        if (!h) {
+                real_free(p);
+                return;
+        }
+        atomic_fetch_add(&live_blocks, -1);
+        atomic_fetch_add(&live_bytes, -(long)h->size);
+        h->magic = 0;
+        real_free(h);
+}
+#endif
+
 #define OK 0
 #define NSLOT 16
 #define MAXTOK 64
@@ -522,6 +649,12 @@ int main(int argc, char **argv)
                         }
                         free(blk);
                         fputs("\"rc\":0", out);
+                } else if (!strcmp(tok[0], "heapmark")) {
+#ifdef HEAP_ACCOUNT
+                        fprintf(out, "\"rc\":0,\"live_blocks\":%ld,\"live_bytes\":%ld", atomic_load(&live_blocks), atomic_load(&live_bytes));
+#else
+                        fputs("\"rc\":-1", out);
+#endif
                 } else if (!strcmp(tok[0], "hook") && nt >= 4) {
 #ifdef KALIGN_VERIF
                         want_events = atoi(tok[1]);
